@@ -59,6 +59,13 @@ class Ctx(object):
     def axk(self):
         return self.k % self.a.ndim
 
+    def shifted_first(self):
+        """a metadata-free array over a's first dimension with a's labels except the first one (plus a foreign one): aligning with it re-indexes a"""
+        labs = self.a.labels[0]
+        extra = [labs.max() + 1] if labs.dtype.kind in "if" else ["zzz"]
+        new = np.array(list(labs[1:]) + extra, dtype=labs.dtype if labs.dtype.kind in "if" else object)
+        return self.da.DimArray(np.arange(len(new), dtype=float), axes=[self.da.Axis(new, self.a.dims[0])])
+
     def meta_like(self, x):
         """x with a's array-level metadata (for operations on derived arrays of another data kind)"""
         import copy as _c
@@ -250,6 +257,11 @@ CATALOGUE = [
     ("reindex_axis on a single label", "keeps", lambda c: list(c.a.dims), lambda c: (lambda s_: s_.reindex_axis(s_.labels[0].copy(), axis=0))(c.a.take_axis([0], axis=0, indexing="position"))),
     ("take_axis labels as ndarray of the axis' own dtype", "keeps", lambda c: list(c.a.dims), lambda c: c.a.take_axis(c.arg(c.a.labels[0][::-1].copy()), axis=0)),
     ("take_axis labels as ndarray (last axis)", "keeps", lambda c: list(c.a.dims), lambda c: c.a.take_axis(c.arg(c.a.labels[-1][:1].copy()), axis=c.a.dims[-1], indexing="label")),
+    ("take_axis mode=clip", "keeps", lambda c: list(c.a.dims), lambda c: c.a.take_axis([0, 5, -7], axis=0, indexing="position", mode="clip")),
+    ("take_axis mode=wrap", "keeps", lambda c: list(c.a.dims), lambda c: c.a.take_axis([1, 4], axis=c.a.dims[-1], indexing="position", mode="wrap")),
+    # module-level align: the SECOND output is the array under test, reindexed onto labels it shares only in part with the first input
+    ("align([other, a])[1]", "keeps", lambda c: list(c.a.dims), lambda c: c.da.align([c.arg(c.shifted_first()), c.a])[1]),
+    ("align([other, a], join='inner')[1]", "keeps", lambda c: list(c.a.dims), lambda c: c.da.align([c.arg(c.shifted_first()), c.a], join="inner")[1]),
     ("take_axis on a single label", "keeps", lambda c: list(c.a.dims), lambda c: c.a.take_axis([0], axis=0, indexing="position").take_axis([0, 0], axis=0, indexing="position")),
     ("cumsum along a single label", "keeps", None, lambda c: c.a.take_axis([0], axis=0, indexing="position").cumsum(axis=0)),
     ("transpose with a single label", "keeps", lambda c: list(c.a.dims), lambda c: c.a.take_axis([0], axis=0, indexing="position").transpose()),
